@@ -166,7 +166,7 @@ ExactDomain(name, x) ==
 
 \* documented / definitional ranges as <<lo, hi>> in integers; Unb = unbounded on that side
 Unb == 99
-Range == [
+DocRange == [
   SigmoidPlainActivation |-> <<0, 1>>, SigmoidReducedActivation |-> <<0, 1>>, SigmoidSteepenedActivation |-> <<0, 1>>,
   SigmoidBipolarActivation |-> <<-1, 1>>,                                    \* "yrange->[-1,1]"
   SigmoidApproximationActivation |-> <<0, 1>>, SigmoidSteepenedApproximationActivation |-> <<0, 1>>,
@@ -179,8 +179,8 @@ Range == [
   LinearClippedActivation |-> <<-1, 1>>,                                     \* "clipped at -1 and +1"
   NullActivation |-> <<0, 0>>, SignActivation |-> <<-1, 1>>, SineActivation |-> <<-1, 1>>, StepActivation |-> <<0, 1>> ]
 InRangeD(name, y) ==
-    /\ Range[name][1] # Unb => DLe(DInt(Range[name][1]), y)
-    /\ Range[name][2] # Unb => DLe(y, DInt(Range[name][2]))
+    /\ DocRange[name][1] # Unb => DLe(DInt(DocRange[name][1]), y)
+    /\ DocRange[name][2] # Unb => DLe(y, DInt(DocRange[name][2]))
 
 \* C18: "the sigmoid family, tanh, linear, clipped-linear and step functions are monotonically non-decreasing"
 MonotoneNames == {"SigmoidPlainActivation", "SigmoidReducedActivation", "SigmoidSteepenedActivation", "SigmoidBipolarActivation",
@@ -241,8 +241,8 @@ BitExactApply(name, x) ==
       [] name = "SignActivation"          -> IF FIsZero(x) THEN FZero ELSE IF x[1] = 1 THEN FMinusOne ELSE FOne
       [] name = "StepActivation"          -> IF FLt(x, FZero) THEN FZero ELSE FOne
 InRangeF(name, y) ==
-    /\ Range[name][1] # Unb => FLe(FOfInt(Range[name][1]), y)
-    /\ Range[name][2] # Unb => FLe(y, FOfInt(Range[name][2]))
+    /\ DocRange[name][1] # Unb => FLe(FOfInt(DocRange[name][1]), y)
+    /\ DocRange[name][2] # Unb => FLe(y, FOfInt(DocRange[name][2]))
 \* monotone functions computed with correctly rounded +,-,* of monotone arguments only: the float results themselves
 \* must be ordered; for the others (exp, tanh, division) the comparison is made on the 2^-28 fixed-point values with
 \* one unit of slack for the rounding noise of the library functions
